@@ -65,6 +65,7 @@ METHOD_RAISES = {   # method name -> atoms, for library objects whose failure mo
     'join': ['RuntimeError'], 'start': ['RuntimeError'],
     'read': ['OSError'], 'write': ['OSError'], 'close': 'n',
     'put': 'n', 'put_nowait': 'n', 'get_nowait': ['Empty'],
+    'kill': ['OSError'], 'terminate': ['OSError'],
 }
 
 
